@@ -178,8 +178,10 @@ DOPS = {"size": None, "fields": [
     (1, "any", None, "ChannelMappingFamily"),
 ], "tail": "any"}
 
+FTYP = {"size": None, "fields": [(4, "val", "brand", "major_brand"), (4, "any", None, "minor_version")], "tail": "brands"}
+
 FIXED = {
-    b"mvhd": MVHD, b"tkhd": TKHD, b"mdhd": MDHD, b"hdlr": HDLR, b"vmhd": VMHD, b"smhd": SMHD, b"dref": DREF, b"url ": URL,
+    b"ftyp": FTYP, b"mvhd": MVHD, b"tkhd": TKHD, b"mdhd": MDHD, b"hdlr": HDLR, b"vmhd": VMHD, b"smhd": SMHD, b"dref": DREF, b"url ": URL,
     b"stsd": STSD, b"trex": TREX, b"mfhd": MFHD, b"tfdt": TFDT, b"meta": META,
     b"avc1": VISUAL_SAMPLE_ENTRY, b"hvc1": VISUAL_SAMPLE_ENTRY, b"av01": VISUAL_SAMPLE_ENTRY, b"vp09": VISUAL_SAMPLE_ENTRY,
     b"mp4a": AUDIO_SAMPLE_ENTRY, b"Opus": AUDIO_SAMPLE_ENTRY,
